@@ -181,9 +181,11 @@ D_MAP_TABLE = {
     "HashMap::shrink_to": ("shrink_to",),
     "HashMap::shrink_to_fit": ("shrink_to", "shrink_to_fit"),
     "HashMap::drain": ("drain",),
-    "HashMap::remove_entry": ("remove_entry",),
-    "HashMap::remove": ("remove_entry", "remove"),
+    "HashMap::remove_entry": ("remove_entry", "remove?found"),
+    "HashMap::remove": ("remove_entry", "remove", "remove?found"),
 }
+# `name?found`: the split table's bucket-level operation, required only on the paths where the lookup found a bucket (the `None` edge of a test
+# of an Option<located bucket> is a path on which there is nothing to act on)
 
 
 PERFORMS = [
@@ -239,6 +241,11 @@ def _performs(ctx, b, names, depth=0):
             if subs and all(_performs(ctx, cb, names, depth + 1) is None for cb in subs):
                 done.add(c.loc.bb)
                 continue
+            # a private helper of the same type that does it on every path (`self.insert_pairs(iter)`, `self.extend_pairs(iter)`)
+            if lc is not None and lc.kind != "Closure" and lc.path != b.path and not lc.raw.get("exported"):
+                if _performs(ctx, lc, names, depth + 1) is None:
+                    done.add(c.loc.bb)
+                    continue
         if c.method == "next" and c.dest is not None and c.target is not None:
             polls.append(c)
     for P in polls:
@@ -282,15 +289,36 @@ def rule_d_map(ctx):
             continue
         n += 1
         done = set()
+        plain = {x for x in names if "?" not in x}
+        found_only = {x.split("?")[0] for x in names if x.endswith("?found")}
+        absent = set()
         for bd in [b]:
             for c in ctx.calls(bd):
                 lc = c.local_callee()
-                if lc is None or lc.kind == "Closure" or bd.is_cleanup(c.loc.bb) or lc.name not in names or lc.path == b.path:
+                if lc is None or lc.kind == "Closure" or bd.is_cleanup(c.loc.bb) or lc.path == b.path:
                     continue
                 p = c.arg_path(0)
-                if p is not None and p.strip_refs().root == 1:
+                if lc.name in plain and p is not None and p.strip_refs().root == 1:
                     done.add(c.loc.bb)
-        w = _must_pass(b, [0], done, set()) if done else [0]
+                elif lc.name in found_only and p is not None and p.strip_refs().root == 1 and "self_ty" in lc.raw and T[lc.raw["self_ty"]].get("adt") == ctx.roles.S \
+                        and any(T[a_["place"]["ty"]].get("adt") == ctx.roles.B for a_ in c.args[1:] if a_["k"] in ("copy", "move")):
+                    done.add(c.loc.bb)
+                    # the edges on which a lookup came back empty
+                    for x in b.reachable():
+                        tx = b.term(x)
+                        if tx["k"] != "switch":
+                            continue
+                        dd = b.source_def(tx["discr"])
+                        if dd is None or dd[1] != "assign" or dd[2]["rv"]["k"] != "discr":
+                            continue
+                        pt = T[dd[2]["rv"]["place"]["ty"]]
+                        if pt.get("adt") == "core::option::Option" and pt.get("args") and T[pt["args"][0]].get("adt") == ctx.roles.B:
+                            for v, tb in tx["targets"]:
+                                if v == 0:
+                                    absent.add((x, tb))
+                            if not any(v == 0 for v, _ in tx["targets"]):
+                                absent.add((x, tx["otherwise"]))
+        w = _must_pass(b, [0], done, absent) if done else [0]
         R.inst(api=api, fn=b.path, performs=list(names), verdict="ok" if w is None else "VIOLATION")
         if w is not None:
             R.viol("%s:not-performed" % api, b.where(Loc(w[-1], 0)), "%s can return (path %s) without applying %s to its own table: the operation does nothing there"
